@@ -6,4 +6,5 @@ def run(ctx, V):
     # the reply folding (_act_finish, reply_power, 308/309 lines) and the pre-check (dev_check_actions) are tied exactly by R-CLIENT
     C06.correspond(ctx, V, n=300 if ctx.tier == "quick" else 6000)
 def replay(ctx, V, path):
-    print(json.dumps(json.load(open(path)), indent=1)[:6000]); return 0
+    import C06
+    return C06.replay(ctx, V, path)
